@@ -13,12 +13,12 @@ CHECKS = {
          "6/C04"),
  "C05": ("exploration",
          "model-based property testing: type-directed expression generator vs. an independent arbitrary-precision reference evaluator, two printings (minimal/full parentheses), shrinking via proptest",
-         "Random search over expression trees to depth 6 against a reference evaluator written from the language description; value, size and error/no-error are compared for every expression in both printings. Exploration of an infinite space: finds wrong operators, precedence, sizes and encodings with high probability, proves nothing about unexplored trees.",
+         "Random search over expression trees to depth 6 against a reference evaluator written from the language description; value, size and error/no-error are compared for every expression in both printings; six directed cases cover concatenation with a negative sized left operand (a typed parameter), which the expression generator cannot build. Exploration of an infinite space: finds wrong operators, precedence, sizes and encodings with high probability, proves nothing about unexplored trees.",
          "The precedence table is the pinned one (no other documentation exists); the numeric value of a string is the unsigned number its encoded bytes spell; inverted slice bounds are errors also when inverted by one; ascii() of non-ASCII characters follows tests/string_encoding/ok.asm; trusted: num-bigint +,-,*,divrem, comparison, unsigned bit ops.",
          "6/C05"),
  "C01": ("exploration",
          "model-based property testing: generated instruction sets x generated programs vs. an independent reference assembler (structural matcher + layout + expression model), shrinking via proptest choice tape",
-         "Random search over (instruction set, program) pairs against a reference assembler written from the language rules: accept/reject must agree, and on success every output bit, the length and the symbol table must be identical. Finds wrong range predicates, rule selection, bit order, address arithmetic, scoping; exploration only (sampled space, bounded sizes: <= 14+ rules, <= 24 items, widths <= 64).",
+         "Random search over (instruction set, program) pairs (plus two directed families with direct expectations: position through a function, and the word boundary of a mnemonic) against a reference assembler written from the language rules: accept/reject must agree, and on success every output bit, the length and the symbol table must be identical. Finds wrong range predicates, rule selection, bit order, address arithmetic, scoping; exploration only (sampled space, bounded sizes: <= 14+ rules, <= 24 items, widths <= 64).",
          "Generated shapes keep the token reading of a line unique so that the structural matcher coincides with character-level matching; programs the model cannot size before values are discarded (counted); trusted: the reference models (validated by seeded mutants) and num-bigint.",
          "6/C01"),
  "C02": ("exploration",
